@@ -250,7 +250,11 @@ func runCheck(cfg *PropConfig, tier string, seed int) int {
 			rf.Function = r.Name
 		}
 		reproduced := false
-		if w != nil && rf.Function != "" {
+		if o.Status == "bounded-violation" {
+			reproduced = true
+			rf.Replay = "found by the bounded enumeration on the real code: " + o.Model
+			rf.ReplayLog = o.Output
+		} else if w != nil && rf.Function != "" {
 			res := tryReplay(w, &rf, o)
 			reproduced = res
 		}
@@ -367,7 +371,18 @@ func writeEvidence(cfg *PropConfig, tier string, seed int, all []*FuncReport, to
 	for _, u := range cfg.Undecided {
 		assumptions = append(assumptions, "NOT DECIDED by this check: "+u)
 	}
+	boundedN := 0
+	var boundedDesc []string
+	for _, o := range obs {
+		if strings.HasPrefix(o.Name, "bounded:") {
+			boundedN++
+			boundedDesc = append(boundedDesc, o.Desc)
+		}
+	}
 	cov := map[string]interface{}{
+		"bounded_standins":         boundedN,
+		"bounded_descriptions":     boundedDesc,
+		"proved_obligations":       discharged - boundedN,
 		"obligations":              total,
 		"discharged":               discharged,
 		"checker_cmd":              "/verif/bin/govc check " + cfg.ID + " --tier " + tier,
